@@ -1,5 +1,5 @@
 """Property -> rules.  Each entry: run(prog, tier) -> (obligations, floors, meta)."""
-from .rules import bounds, arith, index, numctor, cmp, jsonw, memo, strict, lookup, tls, imports, hashord, capi, tables, ops, registry, printf, recur, trace
+from .rules import bounds, arith, index, numctor, cmp, jsonw, memo, strict, lookup, tls, imports, hashord, capi, tables, ops, registry, printf, recur, trace, fmtcover, fmttables
 
 COMMON_TRUST = [
     "rustc nightly HIR/MIR construction, trait resolution and const evaluation",
@@ -378,6 +378,58 @@ def c18(prog, tier):
     return obs, floors, meta
 
 
+def c19(prog, tier):
+    obs, floors, an = merge(fmtcover.run(prog), only(tables.run(prog, which=("rowan",)), ("rowan:",)))
+    meta = {
+        "level": "other",
+        "explanation": (
+            "Static decision of a coverage condition that is necessary for 'formatting preserves the program' and 'every comment appears in the "
+            "output': every child accessor of every syntax node kind of the generated tree (79) and the semantic token accessors (tailstrict, "
+            "field `+`, `?` of null-coalescing index) are read by the formatter, list children are walked with children_between::<T>; every "
+            "children_between site keeps the children's before/inline trivia and the ending comments and hands them to format_comments; "
+            "format() returns Err before printing when the parser reported errors; the syntax-tree parser's operator tables equal the grammar "
+            "(otherwise the printed tree is not the evaluator's tree). NOT decided: AST equality of output and input (semantic), layout logic."),
+        "rule": "R-FMTCOVER: MIR call enumeration of generated accessors from the formatter crate; HIR destructuring of children_between results; MIR dominance for refusal; R-TABLE for the rowan precedence tables",
+        "rules": ["R-FMTCOVER", "R-TABLE"],
+        "analysed": an,
+        "decided": "child / semantic-token / trivia coverage of the printer; refusal on syntax errors",
+        "not_decided": "that the printed text parses to the same AST; comment placement",
+        "trusted_base": COMMON_TRUST + ["generated nodes.rs accessors reflect jsonnet.ungram"],
+        "assumptions": ["punctuation and keyword tokens are re-emitted as literals by the printer (not checked token by token)"],
+    }
+    return obs, floors, meta
+
+
+def c14(prog, tier):
+    obs, floors, an = merge(fmttables.run(prog), fmttables.run_text(prog), fmttables.run_indent(prog), fmttables.run_toml_header(prog),
+                            fmttables.run_escape(prog), fmttables.run_strict(prog))
+    meta = {
+        "level": "other",
+        "explanation": (
+            "Static decision of table / guard conditions that are necessary for C14 (the behaviour itself -- that an independent parser reads "
+            "the text back as the same data -- quantifies over runtime strings and is NOT decided). R-FMTTABLES checks, from HIR patterns, "
+            "constant items and MIR paths of the writers: the TOML bare-key class is within A-Za-z0-9_- and excludes the empty key; the "
+            "YAML plain-scalar class contains no indicator character, the reserved-word list contains the YAML 1.1 bool/null/float words and "
+            "is compared case-insensitively; the XML escaper searches for and replaces exactly the five predefined entities; every write of "
+            "user text that bypasses an escaper happens on the true edge of the format's bare-word predicate or inside a block scalar; the "
+            "escaper used for TOML basic strings / YAML double-quoted scalars covers every code point the grammar forbids raw (JSON's table "
+            "plus U+007F..U+009F, U+FFFE, U+FFFF); Str values always pass through the escaper in the Python, TOML and XML writers; XML "
+            "attribute values are escaped between their quotes; Val::Func (and Val::Null in TOML) reach the return without any write; "
+            "`---` precedes every YAML stream document; YAML first-line and continuation indents come from the same option field; a TOML "
+            "table header is omitted only for a table known to be non-empty."),
+        "rule": "R-FMTTABLES: HIR literal-pattern classes vs format grammar tables; MIR edge facts (bare-word predicate true edge); MIR must-pass-through (escaper, header); sibling pairing of indent writes",
+        "rules": ["R-FMTTABLES"],
+        "analysed": an,
+        "decided": "character classes, reserved words, entity map, escaper coverage, guard placement, rejection of out-of-domain values, framing",
+        "not_decided": "round trip through a real parser; number look-alike predicates of bare_safe; section / array-of-table layout beyond the header rule; "
+                       "block scalars with leading spaces or several trailing newlines (outside the property's block-scalar-safe class); INI, "
+                       "PythonVars and XML names are written raw by design (inventoried as info)",
+        "trusted_base": COMMON_TRUST + ["TOML 1.0 / YAML 1.1+1.2 / XML 1.0 character tables transcribed in rules/fmttables.py"],
+        "assumptions": ["escape_string_json_buf implements its ESCAPE table (decided under C05's R-JSON)"],
+    }
+    return obs, floors, meta
+
+
 def c15(prog, tier):
     obs, floors, an = merge(capi.run_enter(prog), capi.run_siblings(prog), capi.run_prov(prog), capi.run_exit(prog), capi.run_visit(prog),
                             capi.run_format_map(prog), only(tls.run(prog), ("jrsonnet::main_real", "jrsonnet_cli::", "jrsonnet_evaluator::stack::set_stack")),
@@ -489,6 +541,8 @@ PROPS = {
     "C11": {"run": c11, "thorough_cfgs": ["default", "experimental"]},
     "C13": {"run": c13, "thorough_cfgs": ["default", "experimental"]},
     "C18": {"run": c18, "thorough_cfgs": ["default", "experimental", "capi-nodefault"]},
+    "C19": {"run": c19, "thorough_cfgs": ["default"]},
+    "C14": {"run": c14, "thorough_cfgs": ["default", "experimental"]},
     "C15": {"run": c15, "thorough_cfgs": ["default", "capi-nodefault"]},
     "C16": {"run": c16, "thorough_cfgs": ["default", "experimental"]},
     "C03": {"run": c03, "thorough_cfgs": ["default", "experimental"]},
